@@ -187,6 +187,12 @@ class Ref:
       return self.read(inst, e[1], env)
     if k in ("tmpv", "lv", "param"):
       return env[e[1]]
+    if k == "vslice":
+      b = self.ev(inst, e[2], env)
+      key, lo, w, _ = self.resolve(inst, e[1], env)
+      if not 0 <= b <= w - e[3]:
+        raise IndexError(e)
+      return (self.state[key] >> (lo + b)) & mask(e[3])
     if k == "fcall":
       fn = inst.funcs[e[1]]
       args = [self.ev(inst, a, env) for a in e[2]]
@@ -398,6 +404,8 @@ class _Static:
       if x[0] == "rd":
         # walk_exprs also yields the index expressions themselves
         reads.update(self.path_bits(inst, x[1], set()))
+      elif x[0] == "vslice":
+        reads.update(self.path_bits(inst, x[1], set()))       # any window of x: the whole of x
       elif x[0] == "fcall":
         # the callee's reads are the caller's reads (transitively)
         self.expr_bits(inst, inst.funcs[x[1]]["ret"], reads)
